@@ -103,6 +103,8 @@ def generate(seed, tier):
             ops.append(["compute"]); ncomp += 1; nres += 1
         elif r < 0.42:
             fsel = ["grid", rw.randrange(0, 64)] if rw.random() < 0.5 else ["free", round(rw.uniform(0.0, 0.5), 5)]
+            if data.get("line_f") is not None and rw.random() < 0.5:
+                fsel = ["free", data["line_f"]]        # right on the record's spectral line (tiny scatter between segments)
             lsel = rw.choice([["planL", rw.randrange(0, 64)], ["L", rw.randrange(1, min(N, 48 if sim else N) + 1)],
                               ["fres", rw.randrange(1, min(N, 48 if sim else N) + 1)],
                               ["fres", round(rw.uniform(1.0, min(N, 48 if sim else N)), 3)]])   # fs/fres not an integer
@@ -316,6 +318,8 @@ def execute(sc, out):
                         eraw = SS.raw_fields(rf_)
                         evals = _all_values(rf_, ATTRS)
                         raw = SS.raw_fields(r)
+                        if world == "real-numba" and knob_key() != key0:
+                            _single_cross_config(sess, sc["world"], data, cfg, f, kw, raw, out, knob_key(), key0, base_clock)
                         d = SS.diff_fields(raw, eraw, SS.RAW_CMP)
                         if d is not None:
                             out.violate("single_bin_differs_from_fresh", f"world={world} field={d}",
@@ -434,6 +438,45 @@ def execute(sc, out):
     multi = (out.counters.get("preempt_in_body", 0) > 0) or len(thread_cfgs) >= 2 or len(orders_seen) >= 2 or out.counters.get("np_chunk_changed", 0) > 0
     out.nontrivial = bool((ncompute >= 2 or (ncompute >= 1 and nsingle >= 1)) and multi)
     out.summary = {"world": world, "nf": nf, "ops": [o[0] for o in sc["ops"]], "computes": ncompute, "singles": nsingle}
+
+
+def _single_cross_config(sess, wspec0, data, cfg, f, kw, raw, out, key, key0, base_clock):
+    """The same single-bin request under the scenario's first thread configuration: beyond the rounding budget of the
+    recurrence the two must not differ (within it: the recorded ulp-level finding)."""
+    import numba
+
+    old = (numba.get_num_threads(), numba.get_parallel_chunksize())
+    try:
+        numba.set_num_threads(max(1, min(int(wspec0.get("threads") or 1), numba.config.NUMBA_NUM_THREADS)))
+        numba.set_parallel_chunksize(int(wspec0.get("chunksize") or 0))
+        with base_clock.installed():
+            r0 = SC.build_analyzer(data.copy(), cfg).compute_single_bin(f, **kw)
+    finally:
+        numba.set_num_threads(old[0])
+        numba.set_parallel_chunksize(old[1])
+    raw0 = SS.raw_fields(r0)
+    a4 = [raw[nm][0] for nm in ("XX", "YY", "XY", "M2")]
+    b4 = [raw0[nm][0] for nm in ("XX", "YY", "XY", "M2")]
+    if all((a == b) or (a != a and b != b) for a, b in zip(a4, b4)):
+        return
+    xs = (data[0], data[1]) if data.ndim == 2 else (data, None)
+    Lj = int(raw["L"][0])
+    wj = SC.reference_window(cfg["win"], cfg["psll"], Lj)
+    RM.ref_stats(xs[0], xs[1], np.asarray(raw["D"][0]), Lj, wj, 2 * np.pi * float(raw["f"][0]) / cfg["fs"], cfg["order"])
+    tXX, tYY, tmu, _, tM2 = RM.ref_stats.last_tols
+    ulp = False
+    for nm, a, b, tol in zip(("XX", "YY", "XY", "M2"), a4, b4, (tXX, tYY, tmu, tM2)):
+        if a == b or (a != a and b != b):
+            continue
+        if not abs(a - b) <= 2.0 * tol:
+            out.violate("depends_on_thread_config", f"world=real-numba field={nm}",
+                        f"compute_single_bin({f!r}, {kw}) (L={Lj}, K={len(raw['D'][0])}): {key} gives {a!r}, {key0} gives {b!r} (rounding budget {tol:.2e})")
+        else:
+            ulp = True
+    if ulp:
+        out.violate("ulp_level_dependence_on_thread_config", "world=real-numba",
+                    f"compiled kernels: same single-bin analysis under {key} and {key0} differs in the last bits (within the rounding budget)")
+    out.count("single_bin_cross_config")
 
 
 def _resolve_single(op, base_raw, cfg, data):
